@@ -654,6 +654,19 @@ func c04Body(rc *RunCtx) {
 		} else {
 			simrt.Probe("roundtrip_equal")
 		}
+		// the same through a connection that delivers the complete encoding in seeded fragments
+		rt04.got, rt04.on = nil, true
+		oc, _ := c04DecodeConn(enc, 1+simrt.ChooseF(2), dec)
+		rt04.on = false
+		d.Decodes++
+		switch {
+		case oc.panicked:
+			viol("fabricated-data", fmt.Sprintf("the complete encoding decodes from a buffer but fails with %q when the same bytes arrive in fragments over a connection", oc.msg))
+		case !bytes.Equal(rt04.got, want):
+			viol("fabricated-data", fmt.Sprintf("the complete encoding, delivered in fragments over a connection, decodes to an object that encodes differently (%d bytes in, %d back)", len(want), len(rt04.got)))
+		default:
+			simrt.Probe("roundtrip_equal_fragmented")
+		}
 	}
 	bound := func(n int) uint64 { return 4<<20 + 64*uint64(n) }
 	n := len(enc)
